@@ -117,7 +117,11 @@ func runWatchScenario(t *testing.T, sc watchScen, hello []byte) (evs []Ev, crash
 			if watchCH2 != nil && conn.ECHAccepted() {
 				// a later phase of the same connection must be just as free of the (ended) context: the backend asks for
 				// a retry, the Read of the second ClientHello blocks for a while, then that hello arrives
-				if _, werr := conn.Write(hrrRecord(true, 0)); werr != nil {
+				first := make([]byte, 70000)
+				if n, rerr := conn.Read(first); rerr != nil || n == 0 { // the backend takes the (inner) hello ...
+					ok = false
+				}
+				if _, werr := conn.Write(hrrRecord(true, 0)); werr != nil { // ... and answers with a HelloRetryRequest
 					ok = false
 				}
 				type rr struct {
